@@ -7,7 +7,8 @@ EXTENDS T2J, ConvUniverse, TLC, Json, FiniteSets
 CONSTANTS EmitCases, Pairs
 VARIABLES val, opt
 vars == <<val, opt>>
-Opts == {[i2s |-> a, u8 |-> b, nob64 |-> c, disallow |-> d] : a \in BOOLEAN, b \in BOOLEAN, c \in BOOLEAN, d \in BOOLEAN}
+Opts == {[i2s |-> a, u8 |-> b, nob64 |-> c, disallow |-> d, wreq |-> FALSE, wdef |-> FALSE, wopt |-> FALSE, optbm |-> FALSE] :
+           a \in BOOLEAN, b \in BOOLEAN, c \in BOOLEAN, d \in BOOLEAN}
 AllIds == KnownIds \cup {99}
 Vals == IF Pairs THEN {v \in RootVals(AllIds) : Len(v.f) < 2 \/ v.f[1].id # v.f[2].id}
         ELSE {Struct(<<>>)} \cup {Struct(<<f>>) : f \in FieldPool(AllIds)}
